@@ -308,6 +308,20 @@ func buildDoc(r *rand.Rand, spec docSpec) (*model.Document, *genInfo) {
 						t.Rows[i][j].IsHeader = i == 0
 					}
 				}
+				if rows > 1 && r.Intn(5) == 0 {
+					// ragged: rows below the first have more cells than the first one (a title
+					// row over a wider body)
+					for i := 1 + r.Intn(rows-1); i < rows; i++ {
+						extra := t.Rows[i][len(t.Rows[i])-1]
+						extra.Text = g.tok.Next()
+						t.Rows[i] = append(t.Rows[i], extra)
+						if r.Intn(2) == 0 {
+							extra.Text = g.tok.Next()
+							t.Rows[i] = append(t.Rows[i], extra)
+						}
+					}
+					info.Features["table-ragged-wider-below"] = true
+				}
 				t.BBox = bbox
 				page.AddElement(t)
 				info.Kinds["table"]++
